@@ -628,7 +628,8 @@ std::string RunFault(const JVal& scn, const std::string& doc, const std::string&
 	}
 	return "{\"kind\":\"" + kind + "\",\"k\":" + std::to_string(k) + ",\"save\":" + (isSave ? "true" : "false") + ",\"exc\":" + exc +
 		",\"leak\":" + std::to_string(liveAfter - liveBefore) + ",\"allocs\":" + std::to_string(allocsInCall) + ",\"produced\":" + std::to_string(produced) +
-		",\"hits\":" + std::to_string(faultHits) + ",\"streambad\":" + (streamBad ? "true" : "false") + ",\"peak\":" + std::to_string(Alloc().peakReq) + "}";
+		",\"hits\":" + std::to_string(faultHits) + ",\"streambad\":" + (streamBad ? "true" : "false") + ",\"peak\":" + std::to_string(Alloc().peakReq) +
+		",\"ev\":[" + log.ev + "]}";
 }
 #endif
 
